@@ -6,6 +6,7 @@ import (
 	"io"
 	"runtime/debug"
 	"strings"
+	"time"
 
 	zed "github.com/brimdata/super"
 	"github.com/brimdata/super/compiler/optimizer/demand"
@@ -130,7 +131,7 @@ func (c *encCase) runOver(e encCfg) (PlanResult, error) {
 	if err != nil {
 		return PlanResult{}, err
 	}
-	res := RunPlan(PlanCfg{Query: c.Prog, Optimize: true, Readers: func(zctx *zed.Context) ([]zio.Reader, error) {
+	res := RunPlan(PlanCfg{Query: c.Prog, Optimize: true, Timeout: 5 * time.Minute, Readers: func(zctx *zed.Context) ([]zio.Reader, error) {
 		r, err := reader(zctx, data, e)
 		if err != nil {
 			return nil, err
@@ -138,6 +139,10 @@ func (c *encCase) runOver(e encCfg) (PlanResult, error) {
 		return []zio.Reader{r}, nil
 	}})
 	return res, nil
+}
+
+func isTimeout(r PlanResult) bool {
+	return strings.Contains(r.Err, "context deadline exceeded") || strings.Contains(r.Err, "context canceled")
 }
 
 func (c *encCase) same(a, b PlanResult) bool {
@@ -165,6 +170,11 @@ func (c *encCase) differs() (enc *encCfg, ref, got PlanResult, skipped []string)
 		r, err := c.runOver(e)
 		if err != nil {
 			skipped = append(skipped, e.Format)
+			continue
+		}
+		if isTimeout(r) || isTimeout(ref) {
+			// wall-clock dependent (GC percent 1 under load): inconclusive, never a verdict
+			skipped = append(skipped, "timeout")
 			continue
 		}
 		if !c.same(ref, r) {
@@ -386,8 +396,8 @@ func c04Alias(c *Ctx) {
 		"yield typeof(this) | count() by this", "search foo | count() by typeof(this)", "search s==\"foo\" | count() by typeof(this)", "max(s),min(s)",
 		"put t:=typeof(this) | count() by t", "any(typeof(v)) by s", "sort s | head 50 | count() by typeof(this)", "fuse | count() by typeof(this)"}
 	var cases []*encCase
-	for i := 0; i < c.N(8, 36); i++ {
-		n := c.N(1500, 6000)
+	for i := 0; i < c.N(8, 12); i++ {
+		n := c.N(1500, 2500)
 		vals := c04GenValues(c, 60)
 		var many []string
 		for len(many) < n {
